@@ -38,11 +38,12 @@ func loadKnown() []KnownFinding {
 // propIncludes: a property whose sufficient condition contains other properties' mechanisms also checks their obligations
 // (C01: same token stream needs the right tree (C02), faithful re-printing (C03) and literal values (C07);
 // C06: the formatted output must parse to the same tree, i.e. the printers' parenthesisation (C03)).
-// C03/C05/C13: printing back, custom operators and the mode flags are stated relative to how the parser groups and where it
+// C02: parsing as JavaScript parses presupposes the lexer's tokenisation (C10). C03/C05/C13: printing back, custom operators and the mode flags are stated relative to how the parser groups and where it
 // ends statements (C02); C06 additionally replays comments (C15); C08 builds on the token positions (C10) and the encoder
 // (C09); C15 on the lexer's trivia handling (C10); C12 on how the lexer delimits tokens and literals (C10, C07). The table is closed under composition below.
 var propIncludes = closeIncludes(map[string][]string{
 	"C01": {"C02", "C03", "C07", "C06"},
+	"C02": {"C10"},
 	"C03": {"C02"},
 	"C05": {"C02"},
 	"C13": {"C02"},
